@@ -316,7 +316,7 @@ package raft
 //@   ensures [I11] r.operationManager != nil && r.operationManager.leaderLease != nil && r.operationManager.pendingReplicated != nil && r.operationManager.pendingReadOnly != nil && (forall o *Operation :: o in r.operationManager.pendingReadOnly ==> o != nil)
 //@   ensures [answered-mono] forall c int :: old(answered[c]) ==> answered[c]
 //@   ensures [clock] now >= old(now)
-//@   ensures [snapshot] r.snapshot == nil || r.snapshot == old(r.snapshot)
+//@   ensures [snapshot] r.snapshot == nil || (r.snapshot == old(r.snapshot) && sfWriter[r.snapshot] == old(sfWriter[r.snapshot]) && sfPublished[r.snapshot] == old(sfPublished[r.snapshot]))
 //@   ensures [nextIndex] old(forall fid string :: fid in r.followers ==> r.followers[fid].nextIndex <= Llast + 1) ==> forall fid string :: fid in r.followers ==> r.followers[fid].nextIndex <= Llast + 1
 //@   loop range r.configuration.Members invariant [nextIndex] old(forall fid string :: fid in r.followers ==> r.followers[fid].nextIndex <= Llast + 1) ==> forall fid string :: fid in r.followers ==> r.followers[fid].nextIndex <= Llast + 1
 //@   loop range next.Members invariant [nextIndex] old(forall fid string :: fid in r.followers ==> r.followers[fid].nextIndex <= Llast + 1) ==> forall fid string :: fid in r.followers ==> r.followers[fid].nextIndex <= Llast + 1
